@@ -6,7 +6,12 @@ import (
 	"fmt"
 	"io"
 	mrand "math/rand/v2"
+	"net"
 	"testing"
+	"time"
+
+	"github.com/brutella/hc/hap"
+	"verif/sim/core"
 
 	hccrypto "github.com/brutella/hc/crypto"
 	"pgregory.net/rapid"
@@ -26,11 +31,12 @@ type C05Op struct {
 
 type C05Scenario struct {
 	Sys   *C05SysScenario `json:"sys,omitempty"` // system-layer scenario (the fields below are unused then)
-	Seed  uint64  `json:"seed"`
-	Ctr   uint64  `json:"ctr"` // frame counter the stream starts at
-	Msgs  []int   `json:"msgs"` // plaintext lengths
-	Ops   []C05Op `json:"ops"`
-	Chunk int     `json:"chunk"`
+	Seed  uint64          `json:"seed"`
+	Ctr   uint64          `json:"ctr"`  // frame counter the stream starts at
+	Msgs  []int           `json:"msgs"` // plaintext lengths
+	Ops   []C05Op         `json:"ops"`
+	Chunk int             `json:"chunk"`
+	Conn  bool            `json:"conn"` // feed the stream through a real hap.Connection (Read) instead of Decrypt
 }
 
 var c05Kinds = []string{"flip", "trunc", "drop", "dup", "swap", "replay", "reflect", "xsess", "splice", "insert", "lenbit", "tagbit", "xctr", "xctr"}
@@ -41,6 +47,7 @@ func genC05(rt *rapid.T) interface{} {
 	}
 	sc := &C05Scenario{Seed: rapid.Uint64().Draw(rt, "seed"), Chunk: rapid.IntRange(0, 4).Draw(rt, "chunk")}
 	sc.Ctr = rapid.SampledFrom(interestingCounters).Draw(rt, "ctr")
+	sc.Conn = rapid.IntRange(0, 2).Draw(rt, "conn") == 0
 	n := rapid.IntRange(1, 4).Draw(rt, "nmsg")
 	for i := 0; i < n; i++ {
 		switch rapid.IntRange(0, 3).Draw(rt, "lk") {
@@ -99,8 +106,8 @@ func runC05(t *testing.T, sci interface{}) *Outcome {
 		o.Stats["probe.high_counter"]++
 	}
 	var frameCtr []uint64 // counter of each original frame
-	var frames [][]byte // original frames, in order
-	var plains [][]byte // plaintext per frame
+	var frames [][]byte   // original frames, in order
+	var plains [][]byte   // plaintext per frame
 	var otherFrames [][]byte
 	for _, l := range sc.Msgs {
 		p := make([]byte, l)
@@ -233,7 +240,31 @@ func runC05(t *testing.T, sci interface{}) *Outcome {
 	var released []byte
 	var derr error
 	calls := 0
-	for len(src.data) > 0 && calls < 64 {
+	if sc.Conn {
+		// connection level: the same stream arrives on a socket (cut into segments by the chunking
+		// source) and is read through hap.Connection.Read with a small and a large caller buffer
+		o.Stats["probe.via_connection"]++
+		ctx := hap.NewContextForSecuredDevice(nil)
+		sock := &scriptedConn{src: src}
+		hcon := hap.NewConnection(sock, ctx)
+		ctx.GetSessionForConnection(hcon).SetCryptographer(acc)
+		hcon.Write([]byte("x")) // the plain write after which the cryptographer is active
+		buf := make([]byte, []int{1, 7, 4096}[int(sc.Seed%3)])
+		for calls < 100000 {
+			calls++
+			n, err := hcon.Read(buf)
+			released = append(released, buf[:n]...)
+			if err != nil {
+				// end of stream counts as the report when the socket ran dry inside the altered part
+				// (a frame announced longer than what follows): nothing more is released after it
+				if err != io.EOF || leftover > 0 {
+					derr = err
+				}
+				break
+			}
+		}
+	}
+	for !sc.Conn && len(src.data) > 0 && calls < 64 {
 		before := len(src.data)
 		r, err := acc.Decrypt(src)
 		calls++
@@ -296,6 +327,27 @@ func runC05(t *testing.T, sci interface{}) *Outcome {
 	}
 	return o
 }
+
+// scriptedConn is a socket that delivers a prepared byte stream in the segments the chunking source decides.
+type scriptedConn struct {
+	src     *chunkReader
+	closed  bool
+	partial bool
+}
+
+func (c *scriptedConn) Read(b []byte) (int, error) {
+	if c.closed {
+		return 0, net.ErrClosed
+	}
+	return c.src.Read(b)
+}
+func (c *scriptedConn) Write(b []byte) (int, error)        { return len(b), nil }
+func (c *scriptedConn) Close() error                       { c.closed = true; return nil }
+func (c *scriptedConn) LocalAddr() net.Addr                { return core.Addr("10.0.0.1:51826") }
+func (c *scriptedConn) RemoteAddr() net.Addr               { return core.Addr("10.0.0.2:40001") }
+func (c *scriptedConn) SetDeadline(t time.Time) error      { return nil }
+func (c *scriptedConn) SetReadDeadline(t time.Time) error  { return nil }
+func (c *scriptedConn) SetWriteDeadline(t time.Time) error { return nil }
 
 // fixedC05 is the exhaustive single-bit-flip sub-space for streams of up to two frames of
 // at most 64 bytes, and one 1024+5 byte two-frame message.
